@@ -32,6 +32,10 @@
 #include <string>
 #include <vector>
 
+// fresh heap memory carries a fill pattern (all of it, not only the first 4 KiB): storage in which no object was ever
+// built is recognisable by the lifecycle functions below. ASAN_OPTIONS from the environment still apply on top.
+extern "C" const char* __asan_default_options() { return "max_malloc_fill_size=1073741824:malloc_fill_byte=204"; }
+
 namespace peek {
 bool valid(void* world, uint64_t entity);
 long archOf(void* world, uint64_t entity);
@@ -41,6 +45,7 @@ bool unlock(void* world);
 bool locked(void* world);
 uint64_t clone(void* world, uint64_t entity, std::string& err);
 bool stampedNow(void* world, uint64_t entity, uint32_t component_id);
+bool stampedSince(void* world, uint64_t entity, uint32_t component_id);
 void bumpVersion(void* world);
 void setStorageCap(uint32_t cap);
 std::string errKind(const std::exception& ex);
@@ -64,6 +69,10 @@ uint64_t defaultValueTok(int c) { return 2000u + static_cast<uint64_t>(c); }
 std::mutex g_mutex;
 std::vector<std::string> g_errors;
 uint64_t g_calls[5] = {0, 0, 0, 0, 0};
+// per letter: every live instance has been initialised (the type has a create function or a default value), so that
+// storage still carrying the allocator's fill pattern is storage no object was ever built in
+bool g_always_initialised[8] = {false, false, false, false, false, false, false, false};
+constexpr unsigned char kRawFill = 0xCC;
 
 void note(const std::string& s) {
     std::lock_guard<std::mutex> l{g_mutex};
@@ -96,8 +105,15 @@ template <int L> void fnCopy(void* d, const void* s) {
     ++g_calls[1]; checkAlign(L, d, "copy"); checkAlign(L, s, "copy");
     memcpy(d, s, kSize[L]);
 }
+bool isRaw(const void* p, size_t n) {
+    const unsigned char* b = static_cast<const unsigned char*>(p);
+    for (size_t i = 0; i < n; ++i) if (b[i] != kRawFill) return false;
+    return n >= 8;
+}
 template <int L> void fnMove(void* d, void* s) {
     ++g_calls[2]; checkAlign(L, d, "move"); checkAlign(L, s, "move");
+    // `move` is the ASSIGNMENT: its destination holds an object (a C++ type's operator= on raw storage is undefined)
+    if (g_always_initialised[L] && isRaw(d, kSize[L])) note(std::string("MOVE-ASSIGN-ONTO-RAW-STORAGE:") + kLetters[L]);
     if (d != s) { memcpy(d, s, kSize[L]); memset(s, 0xDD, kSize[L]); }
 }
 template <int L> void fnMoveCtor(void* d, void* s) {
@@ -169,6 +185,7 @@ struct Driver {
                 info.size = kSize[c];
                 info.align = kAlign[c];
                 info.functions = tableOf(c, mask[c]);
+                g_always_initialised[c] = (mask[c] & kCreate) != 0 || dv[c];
                 if (dv[c]) {
                     defaults[c].assign(kSize[c], 0);
                     writeTok(c, defaults[c].data(), defaultValueTok(c));
@@ -415,7 +432,11 @@ struct Driver {
             if (op == "get" || op == "getmut") {
                 Entity e; if (!parseEntity(w[1], e)) return "bad-op";
                 int c = comp(w[2][0]); if (c < 0) return "bad-op";
-                return "val=" + getVal(e, c, op == "get");
+                // st: did this access mark the component changed? (const lookup: never; mutable lookup: always)
+                peek::bumpVersion(world);
+                const std::string v = getVal(e, c, op == "get");
+                if (v == "null") return "val=null";
+                return "val=" + v + (peek::stampedSince(world, e, ids[c]) ? " st=1" : " st=0");
             }
             if (op == "foreach") return foreach(w);
         } catch (const std::exception& ex) {
